@@ -13,11 +13,12 @@ EXTENDS Naturals, FiniteSets, Sequences, SequencesExt, TLC, Json
 CONSTANTS MaxEntries
 
 NameClasses == {"own", "own2", "wf", "audit", "bak", "gz", "d13", "d15", "prefixx", "unrelated", "alnum",
-                "emptysuffix", "dotted"}
+                "emptysuffix", "dotted", "dashdate", "commav", "bare"}
 \* own / own2: <name>.<14 digits> (two different timestamps); wf: <name>.wf.<14 digits>;
 \* audit: <name>.audit.<14 digits>; bak: <name>.bak; gz: <name>.1.gz; d13 / d15: 13 / 15 digits;
 \* prefixx: <name>x.<14 digits>; unrelated: other.txt; alnum: 13 digits and a letter;
-\* emptysuffix: "<name>."; dotted: <name>.<14 digits>.gz
+\* emptysuffix: "<name>."; dotted: <name>.<14 digits>.gz; dashdate: <name>-20240101; commav: <name>,v;
+\* bare: <name> itself (these three sort before "<name>." in a directory listing)
 OwnClass(c) == c \in {"own", "own2"}
 Kinds == {"file", "dir"}
 Ages  == {"older", "younger"}
